@@ -102,6 +102,10 @@ def c01(report):
     ecf.run_jobs(report, jobs, either(by_clause("state.acc", "state.total", "state.expv", "result.sampler"),
                                       by_clause("call.exception", ops={"fit", "partial_fit", "add_arm", "remove_arm",
                                                                        "predict_expectations"})))
+    # leg C: long recorded histories with wide values (2-6 arms, batches up to 50 rows, large / negative / fractional rewards)
+    from harness import mabtrace
+    mabtrace.run(report, ["eg", "ucb1", "softmax", "pop", "ts"], report.seed, 400 if report.tier == "thorough" else 40,
+                 80 if report.tier == "thorough" else 40, by_clause("mabtrace"))
     negatives(report, [("pop", "PopStaleNorm", "Inv_C01_Term", None), ("softmax", "SoftmaxNoRenormOnDrop", "Inv_C01_Term", None),
                        ("pop", "PopNoRenormOnDrop", "Inv_C01_Term", None), ("ucb1", "UcbNoRefreshAbsent", "Inv_C01_Term", None),
                        ("ucb1", "UcbBatchN", "Inv_C01_Term", None), ("eg", "FitKeepsSums", "Inv_C01_Acc", None)])
